@@ -162,7 +162,49 @@ func runC04(o *Out) {
 	c04Streams(o, r)
 }
 
+// the text Marshal wrote, read back into an interface{} (UseNumber): go-json's reading beside the model's
+// (parse_json, read_tree, gen_of of coq/Model) and encoding/json's -- op c02.dec with the type interface{}
+func c04ReadBack(o *Out, v reflect.Value) {
+	text, err := c01Safe(func() ([]byte, error) { return gojson.Marshal(v.Elem().Interface()) })
+	if err != nil || !utf8.Valid(text) {
+		return
+	}
+	read := func(f func([]byte, interface{}) error) (string, bool) {
+		var x interface{}
+		if err := c04SafeErr(func() error { return f(text, &x) }); err != nil {
+			return "E", true
+		}
+		var w strings.Builder
+		w.WriteByte('O')
+		if x == nil {
+			w.WriteByte('Z')
+			return w.String(), true
+		}
+		w.WriteByte('G')
+		if !c02mGenWire(&w, x) {
+			return "", false
+		}
+		return w.String(), true
+	}
+	got, ok1 := read(func(b []byte, x interface{}) error {
+		d := gojson.NewDecoder(bytes.NewReader(b))
+		d.UseNumber()
+		return d.Decode(x)
+	})
+	want, ok2 := read(func(b []byte, x interface{}) error {
+		d := stdjson.NewDecoder(bytes.NewReader(b))
+		d.UseNumber()
+		return d.Decode(x)
+	})
+	if !ok1 || !ok2 {
+		return
+	}
+	o.emit("A", "c02.dec", [][]byte{[]byte("f"), text, []byte("Z")}, []byte(got), []byte(want), true)
+	o.count("read_back_model_cases", 1)
+}
+
 func c04One(o *Out, r *rand.Rand, t reflect.Type, v reflect.Value) {
+	c04ReadBack(o, v)
 	for _, rt := range c04Routes {
 		o.current(map[string]string{"property": "C04", "type": clipN(t.String(), 600), "value": c01Describe(t, v), "route": rt.name})
 		out, text, err := rt.run(v, t)
